@@ -471,7 +471,10 @@ impl<C: Cfg> World<C> {
         let mut fin_obs: Option<(usize, Option<u32>)> = None;
         macro_rules! finish {
             ($it:expr, $get:expr) => {{
-                match finish % 4 {
+                // an iterator whose bookkeeping is already off (reported below) is not driven
+                // through an adaptor: count() over a wrapped-around length would never end
+                let sane = hint_bad.is_none() && $it.len() <= len;
+                match if sane { finish % 4 } else { 0 } {
                     1 => fin_obs = Some(($it.count(), None)),
                     2 => {
                         let l = $it.last();
